@@ -40,6 +40,8 @@ func (f *Fix) SenderAddr(chain, sender string) sdk.AccAddress {
 		s = designated[away][0]
 	case "o1":
 		s = designated[away][1]
+	case "admin":
+		return f.Admin
 	default:
 		return sim.Addr("unrelated-contract")
 	}
